@@ -183,3 +183,10 @@ def c14_hidden_input_field_in_default(hidden_fields, key) -> bool:
     if not ENABLED:
         return False
     return key in hidden_fields
+
+
+def c20_root_types_not_compared() -> bool:
+    """KF C20-root-types-not-compared: diff_schema never looks at the root operation types, so moving the query root to another existing
+    type or dropping the mutation root (its object type staying reachable) yields no change at all although operations stop validating.
+    A repair needs new public SchemaChange classes for root types - an API decision, recorded rather than repaired."""
+    return ENABLED
